@@ -195,25 +195,45 @@ class AsyncLRUCacheWrapper(Generic[P, T]):
 
         async with lock:
             # Check if another task filled the cache while we acquired the lock
-            if (cached_value := cache_entry[key][0]) is initial_missing:
+            entry = cache_entry.get(key)
+            if entry is not None and entry[1] is lock:
                 self._misses += 1
-                if self._maxsize is not None and self._currsize >= self._maxsize:
-                    cache_entry.popitem(last=False)
-                else:
-                    self._currsize += 1
+                try:
+                    value = await self.__wrapped__(*args, **kwargs)
+                except BaseException:
+                    # Don't leave the placeholder behind unless other tasks are
+                    # waiting on the lock to retry the call
+                    if not lock.statistics().tasks_waiting:
+                        del cache_entry[key]
 
-                value = await self.__wrapped__(*args, **kwargs)
+                    raise
+
                 expires_at = (
                     current_time() + self._ttl if self._ttl is not None else None
                 )
                 cache_entry[key] = value, None, expires_at
-            else:
+                cache_entry.move_to_end(key)
+                self._currsize += 1
+
+                # Evict the least recently used result if the cache is now over its
+                # capacity, skipping the placeholders of calls still in flight
+                if self._maxsize is not None and self._currsize > self._maxsize:
+                    for old_key, old_entry in cache_entry.items():
+                        if old_entry[1] is None:
+                            del cache_entry[old_key]
+                            self._currsize -= 1
+                            break
+
+                return value
+            elif entry is not None and entry[1] is None:
                 # Another task filled the cache while we were waiting for the lock
                 self._hits += 1
                 cache_entry.move_to_end(key)
-                value = cast(T, cached_value)
+                return cast(T, entry[0])
 
-        return value
+        # The entry was evicted or replaced while we were waiting for the lock, so start
+        # over
+        return await self(*args, **kwargs)
 
     def __get__(
         self, instance: object, owner: type | None = None
